@@ -580,14 +580,14 @@ Definition write_param (p : xparam) : velem :=
 
 Definition write_container (c : xcontainer) : res velem :=
   match xk_criteria c, xk_base c with
-  | _ :: _, None => Err EValue
-  | [], Some _ => Err EValue          (* restriction_criteria and base_container_name must come together *)
-  | _, _ =>
+  | _ :: _, None => Err EValue          (* restriction criteria need a base container *)
+  | _, _ =>                             (* (after repair F18) a base without criteria is written as <BaseContainer/> alone *)
     Ok (E "SequenceContainer"
           ([("abstract", AB (xk_abstract c)); ("name", AS (xk_name c))] ++ optattr "shortDescription" (nonempty (xk_short c)))
           ((match nonempty (xk_long c) with Some l => [ET "LongDescription" (AS l)] | None => [] end) ++
            (match xk_base c with
-            | Some b => [E "BaseContainer" [("containerRef", AS b)] [E "RestrictionCriteria" [] (write_criteria (xk_criteria c))]]
+            | Some b => [E "BaseContainer" [("containerRef", AS b)]
+                           (match xk_criteria c with [] => [] | _ :: _ => [E "RestrictionCriteria" [] (write_criteria (xk_criteria c))] end)]
             | None => [] end) ++
            [E "EntryList" [] (map (fun e => match e with
                                             | XEP n => E "ParameterRefEntry" [("parameterRef", AS n)] []
